@@ -14,9 +14,10 @@ import random
 
 TAG_POOL = ["a", "b", "c", "d", "wip", "slow", "setup", "teardown",
             "always", "skip", "xfail", "t.x", "k=v", "small", "install", "t.x.y",
-            "android", "sensor", "notify"]      # (names that CONTAIN the words and / or / not)
+            "android", "sensor", "notify",      # (names that CONTAIN the words and / or / not)
+            "bug#12"]                           # ('#' inside a tag is part of the tag)
 PLAIN_TAGS = ["a", "b", "c", "d", "slow", "always", "skip", "xfail", "t.x", "k=v", "small", "install", "t.x.y",
-              "android", "sensor", "notify"]
+              "android", "sensor", "notify", "bug#12"]
 HOOK_NAMES = ["before_all", "after_all", "before_feature", "after_feature",
               "before_rule", "after_rule", "before_scenario", "after_scenario",
               "before_step", "after_step", "before_tag", "after_tag"]
@@ -453,7 +454,22 @@ def gen_background(rng, lib, opts):
         return None
     o2 = dict(opts)
     o2["p_undefined"] = opts["p_undefined"] * 0.3
-    return {"steps": gen_steps(rng, lib, rng.randint(1, 2), o2)}
+    steps = gen_steps(rng, lib, rng.randint(1, 2), o2)
+    if rng.random() < opts.get("p_bg_placeholder", 0.12):
+        # a parametrised background step: outline rows in scope get it with the row's cell,
+        # plain scenarios with the literal text
+        by_id = {d["id"]: d for d in lib["defs"]}
+        st = rng.choice(steps)
+        d = by_id.get(st.get("def"))
+        if d is not None and d["matcher"] != "re" and any(t[0] == "fld" and t[2] == "" for t in d["tokens"]):
+            st["text"] = instantiate(rng, d, placeholder="cx")
+        elif st.get("doc") is not None:
+            st["doc"] = "bg value <cx>\n" + st["doc"]
+        elif st.get("table") and st["table"]["rows"]:
+            st["table"]["rows"][0][0] = "b<cx>"
+        else:
+            st["doc"] = "bg value <cx>"
+    return {"steps": steps}
 
 
 def gen_items(rng, lib, prefix, n, opts, allow_rules):
@@ -656,12 +672,26 @@ def walk_scenarios(world):
 def all_steps_of(feat, rule, scen):
     """Model: inherited background steps first (feature bg, rule bg), then own."""
     steps = []
+
+    def inherited(st):
+        # an outline row gets the background steps with the row's cells filled in
+        if scen.get("row") is None or scen.get("headings") is None:
+            return st
+        hd, row = scen["headings"], scen["row"]
+        st2 = dict(st)
+        st2["text"] = substitute(st["text"], hd, row)
+        if st.get("doc") is not None:
+            st2["doc"] = substitute(st["doc"], hd, row)
+        if st.get("table"):
+            st2["table"] = {"headings": [substitute(h, hd, row) for h in st["table"]["headings"]],
+                            "rows": [[substitute(c, hd, row) for c in rw] for rw in st["table"]["rows"]]}
+        return st2
     if feat.get("background"):
         for i, st in enumerate(feat["background"]["steps"]):
-            steps.append(("%s.BG#%d" % (feat["id"], i), st))
+            steps.append(("%s.BG#%d" % (feat["id"], i), inherited(st)))
     if rule is not None and rule.get("background"):
         for i, st in enumerate(rule["background"]["steps"]):
-            steps.append(("%s.BG#%d" % (rule["id"], i), st))
+            steps.append(("%s.BG#%d" % (rule["id"], i), inherited(st)))
     for i, st in enumerate(scen["steps"]):
         owner = scen.get("outline") or scen["id"]
         steps.append(("%s#%d" % (owner, i), st))
@@ -950,10 +980,21 @@ def gen_script(rng, world, dims):
                         ent["acts"].append({"a": "step_table", "what": rng.choice(["add_row", "cell"])})
     world["script"] = script
     world["autoretry"] = {}
+    world["autoretry_outlines"] = []
     if dims["autoretry"]:
         for feat, rule, ol, sc in walk_scenarios(world):
             if rng.random() < 0.4:
                 world["autoretry"][sc["id"]] = rng.randint(2, 3)
+        # ... or a whole outline is patched with one call (all its rows get the same bound)
+        seen = set()
+        for feat, rule, ol, sc in walk_scenarios(world):
+            if ol is not None and ol["id"] not in seen:
+                seen.add(ol["id"])
+                if rng.random() < 0.3:
+                    n = rng.randint(2, 3)
+                    for row in outline_rows(ol):
+                        world["autoretry"][row["id"]] = n
+                    world["autoretry_outlines"].append(ol["id"])
 
 
 FORMATTERS = ["plain", "pretty", "json", "json.pretty", "progress", "progress2",
@@ -976,6 +1017,18 @@ def gen_config(rng, world, dims):
         used = sorted(set(t for f, r, o, s in walk_scenarios(world)
                           for t in effective_tags(f, r, o, s)) or {"a"})
         ast = gen_tagexpr(rng, used + ["a", "zz"])
+        if rng.random() < 0.06:
+            # a conjunction of bare operands one of which is a wildcard (no and/or/not word anywhere
+            # once it is given as several --tags options)
+            t1, t2 = rng.choice(used), rng.choice(used + ["a"])
+            tagged = [sorted(effective_tags(f, r, o, sc)) for f, r, o, sc in walk_scenarios(world)]
+            tagged = [ts for ts in tagged if ts]
+            if tagged and rng.random() < 0.8:
+                ts = rng.choice(tagged)         # ... that some scenario really satisfies
+                t1, t2 = rng.choice(ts), rng.choice(ts)
+            ast = ["and", ["glob", t1[0] + "*"], ["tag", t2]]
+            if rng.random() < 0.5:
+                ast = ["and", ast[2], ast[1]]
         cfg["tagexpr"] = ast
         r = rng.random()
         if tagexpr_is_cnf(ast) and r < 0.3:
@@ -984,6 +1037,11 @@ def gen_config(rng, world, dims):
             # wildcard-free by construction of CNF check (only plain tags)
         else:
             cfg["tag_args"] = [render_tagexpr(ast, at=rng.random() < 0.5)]
+            if ast[0] == "and" and rng.random() < 0.5:
+                # the top-level conjunction given as several --tags options (documented: and-ed)
+                def conj(a):
+                    return conj(a[1]) + conj(a[2]) if a[0] == "and" else [a]
+                cfg["tag_args"] = [render_tagexpr(c, at=rng.random() < 0.5) for c in conj(ast)]
             cfg["tags_protocol"] = rng.choice([None, None, "v2", "auto_detect"])
     if dims["namesel"]:
         names = [s["name"] if "name" in s else s["name_core"]
@@ -1024,7 +1082,7 @@ def gen_config(rng, world, dims):
         cfg["logging_level"] = rng.choice(["DEBUG", "WARNING", "ERROR"])
     if rng.random() < 0.1:
         cfg["logging_filter"] = rng.choice(["foo", "-foo", "foo,baz", "foo,-baz", "-foo,-baz", "baz,-foo.bar", "root,foo.bar"])
-    if rng.random() < 0.1:
+    if rng.random() < dims.get("p_clear_handlers", 0.1):
         cfg["logging_clear_handlers"] = True
     if dims.get("outline_schemas") and rng.random() < 0.5:
         cfg["outline_schema"] = rng.choice(["{name} -*- {examples.name}@{row.id}", "{name} [{row.index}/{examples.index}]",
@@ -1069,7 +1127,8 @@ def gen_config(rng, world, dims):
             cfg["listfile"] = {"path": rng.choice(["sel.txt", "features/sel.txt", "lists/sel.txt"]),
                                "comments": rng.random() < 0.5}
     cfg["paths"] = paths
-    cfg["pre_handler"] = bool(dims.get("pre_handler"))
+    # 0: none; 1: a silent application handler; 2: plus the application's own stream handler on the real stderr
+    cfg["pre_handler"] = (2 if rng.random() < 0.5 else 1) if dims.get("pre_handler") else 0
     world["cfg"] = cfg
     world["stale_rerun"] = dims["rerun"] and rng.random() < 0.4
 
